@@ -549,6 +549,30 @@ def fallback_scsv(chk):
                         'a client that is not downgrading is refused'), key='%s %x %x %x' % (R, V, m, M))
 
 
+def certificate_verify_hash(chk):
+    """CertificateVerify (RFC 5246 7.4.8): with TLS 1.2 the client names the hash it signed with; the server may accept only what its
+    CertificateRequest offered - SHA-1 .. SHA-512 (ids 2..6), never MD5 (1) or "none" (0); before TLS 1.2 the hash is fixed by the key
+    type (0 = MD5+SHA-1 for RSA, 2 = SHA-1 for ECDSA).  Decided by abstract interpretation of the server bytecode with the protocol
+    version pinned: the range of the hash identifier handed to the copy-hash-CV native."""
+    R = 'certificate-verify-hash-range'
+    P = t0.Program('hs_server')
+    o_ver = P.layouts.field(P.ctxname, 'eng.session.version')[0]
+    if P.native_id('copy-hash-CV') is None:
+        raise AnalysisBroken('hs_server: native copy-hash-CV vanished')
+    for ver, lo, hi, what in ((0x0303, 2, 6, 'TLS 1.2: SHA-1 .. SHA-512 only'), (0x0302, 0, 2, 'TLS 1.1: MD5+SHA-1 (RSA) or SHA-1 (ECDSA)'),
+                              (0x0301, 0, 2, 'TLS 1.0: MD5+SHA-1 (RSA) or SHA-1 (ECDSA)')):
+        I = t0ai.Interp(P, field_ranges={o_ver: (ver, ver)}).run_entry()
+        rs = set(e.st.rng(e.args[0]) for e in I.events if e.name == 'copy-hash-CV')
+        inst = 'hs_server: hash identifier accepted in CertificateVerify, %s' % what
+        if not rs:
+            chk.violation(R, inst, P.src, 'copy-hash-CV is not reached', key='%s %x none' % (R, ver))
+        elif all(lo <= a and b <= hi for a, b in rs):
+            chk.ok(R, inst, P.src, 'range %s' % sorted(rs))
+        else:
+            chk.violation(R, inst, P.src, 'the identifier ranges over %s: %s' % (sorted(rs), 'MD5 (1) / none (0) is accepted although never offered' if ver == 0x0303 else
+                          'a hash other than the one fixed by the protocol version is used'), key='%s %x' % (R, ver))
+
+
 def run(tier):
     chk = report.Check('C03', tier,
                        'Static necessary conditions: in both handshake interpreters every store that sets bit 0 of application_data is preceded, on '
@@ -570,6 +594,7 @@ def run(tier):
     resumption_rules(chk)
     session_invalidation(chk)
     fallback_scsv(chk)
+    certificate_verify_hash(chk)
     from . import c11 as _c11
     oblig.run_obligations(chk, [o for o in _c11.obligations() if 'ecdsa' in o.func])
     _c11.rs_nonzero(chk)
